@@ -280,6 +280,29 @@ pub fn corpus() -> Vec<Prog> {
         prog!(v, x_bounded_nested_loop, "source_iter.cross_product_nested_loop(source_iter).chain(a)", Seq, b = false, s = false, keyed = false, None);
         prog!(v, x_k_values, "keyed.values()", Multiset, b = false, s = false, keyed = false,
             Some(|a: &[E], _b: &[E], _s: i32| RefOut::Stream(a.iter().map(|e| (0, e.1)).collect())));
+        prog!(v, x_at_scan, "a.atomic().scan().end_atomic()", Seq, b = false, s = false, keyed = false,
+            Some(|a: &[E], _b: &[E], _s: i32| RefOut::Stream(crate::refsem::r_scan(a.to_vec()))));
+        prog!(v, x_at_limit, "a.atomic().limit(2).end_atomic()", Seq, b = false, s = false, keyed = false,
+            Some(|a: &[E], _b: &[E], _s: i32| RefOut::Stream(a.iter().take(2).copied().collect())));
+        prog!(v, x_at_enumerate, "a.atomic().enumerate().end_atomic()", Seq, b = false, s = false, keyed = false,
+            Some(|a: &[E], _b: &[E], _s: i32| RefOut::Stream(crate::refsem::r_enumerate(a.to_vec()))));
+        prog!(v, x_at_generator, "a.atomic().generator().end_atomic()", Seq, b = false, s = false, keyed = false,
+            Some(|a: &[E], _b: &[E], _s: i32| {
+                let mut acc = 0;
+                let mut out = vec![];
+                for (k, x) in a {
+                    acc += x;
+                    if acc >= 4 {
+                        out.push((*k, acc));
+                        break;
+                    } else if *x != 0 {
+                        out.push((*k, acc));
+                    }
+                }
+                RefOut::Stream(out)
+            }));
+        prog!(v, x_at_first, "a.atomic().first() [atomic snapshots]", Last, b = false, s = false, keyed = false,
+            Some(|a: &[E], _b: &[E], _s: i32| RefOut::Value(e_opt_pair(a.first().copied()))));
         prog!(v, c_get_max_key, "a.into_keyed().first().get_max_key()", Last, b = false, s = false, keyed = false,
             Some(|a: &[E], _b: &[E], _s: i32| RefOut::Value(e_opt_pair(firsts(a).into_iter().next_back()))));
     v
@@ -374,6 +397,40 @@ pub fn keyed() -> Vec<KProg> {
             each(out.into_iter())
         });
         kp!(v, k_atomic_roundtrip, "keyed.atomic().end_atomic()", KeyedSeq, s = false, |_k, v, _s| each(v.iter().copied()));
+        kp!(v, k_at_scan, "keyed.atomic().scan().end_atomic()", KeyedSeq, s = false, |_k, v, _s| {
+            let mut acc = 0i32;
+            each(v.iter().map(|x| {
+                acc = acc.wrapping_mul(3).wrapping_add(*x);
+                acc
+            }))
+        });
+        kp!(v, k_at_enumerate, "keyed.atomic().enumerate().end_atomic()", KeyedSeq, s = false, |_k, v, _s| each(v.iter().enumerate().map(|(i, x)| x * 10 + i as i32)));
+        kp!(v, k_at_limit, "keyed.atomic().limit(1).end_atomic()", KeyedSeq, s = false, |_k, v, _s| each(v.iter().take(1).copied()));
+        kp!(v, k_at_generator, "keyed.atomic().generator().end_atomic()", KeyedSeq, s = false, |_k, v, _s| {
+            let mut acc = 0;
+            let mut out = vec![];
+            for x in v {
+                acc += x;
+                if acc >= 3 {
+                    out.push(acc);
+                    break;
+                } else if *x != 0 {
+                    out.push(acc);
+                }
+            }
+            each(out.into_iter())
+        });
+        kp!(v, k_at_first, "keyed.atomic().first().end_atomic()", Multiset, s = false, |_k, v, _s| vec![vec![v[0] as i64]]);
+        kp!(v, k_at_fold_early_stop, "keyed.atomic().fold_early_stop().end_atomic()", Multiset, s = false, |_k, v, _s| {
+            let mut acc = 0i32;
+            for x in v {
+                acc = acc.wrapping_mul(3).wrapping_add(*x);
+                if acc >= 3 {
+                    return vec![vec![acc as i64]];
+                }
+            }
+            vec![]
+        });
         kp!(v, k_unique, "keyed.unique", Multiset, s = false, |_k, v, _s| {
             let mut u: Vec<i32> = v.to_vec();
             u.sort();
